@@ -39,6 +39,10 @@ A_Done      == phase = "run" /\ MDone     /\ UNCHANGED <<rr, phase>>
 Next == PickDim \/ PickRow \/ Start \/ A_CholRow \/ A_DetStep \/ A_NMat \/ A_PowerStep \/ A_AltSum
         \/ A_Finish \/ A_Stability \/ A_Done
 Spec == Init /\ [][Next]_allvars
+\* liveness: under weak fairness every started run reaches one of the four outcomes (no loop of the
+\* routine can spin: each has a strictly increasing index bounded by the dimension)
+FairSpec == Spec /\ WF_allvars(Next)
+RunTerminates == <>(phase = "run" /\ pc \in {"ok", "zerodet", "unstable", "undefined"})
 
 Running == phase = "run"
 I_CholPartial == Running => CholPartial
